@@ -152,7 +152,7 @@ pub fn run(ctx: &Ctx) {
     ctx.assume("Linux, no controlling terminal; failure of the output device itself is not among the listed causes");
     let _ = ids();
     let mut cases = Vec::new();
-    let reps = ctx.n(2, 24);
+    let reps = ctx.n(4, 24);
     for cmd in [Command::Encrypt, Command::Decrypt, Command::PassEncrypt, Command::PassDecrypt, Command::KeyGenerate] { for cause in applicable(cmd) { for prior in [false, true] { for k in 0..reps {
         cases.push(Case { cmd, cause: cause.clone(), prior, inst: ctx.seed.wrapping_mul(1000).wrapping_add(k * 7919 + cases.len() as u64) }); } } } }
     ctx.sse_vec("cli_failure_matrix", &format!("5 commands x applicable causes x 2 prior states x {} instances", reps), cases, check);
